@@ -15,6 +15,7 @@ result monad (raise -> Err), mode 'state' a state+result monad over a record `s`
 (self.<field> reads/writes go through declared getters/setters).
 """
 import ast
+import copy
 from decimal import Decimal
 
 
@@ -40,7 +41,8 @@ class Spec:
 
     def __init__(self, name, params=(), ret=None, mode='pure', attrs=None, calls=None,
                  consts=None, strings=None, state=None, self_name='self', errs=None,
-                 fuel=None, binder_prefix='', pre=None):
+                 fuel=None, binder_prefix='', pre=None, lockstep=None, inplace=None, binops=None,
+                 eattrs=None, methods=None, types=None, skip=None):
         self.name = name              # Coq name of the definition
         self.params = list(params)    # [(pyname, type)] explicit parameters (besides self)
         self.ret = ret
@@ -54,6 +56,13 @@ class Spec:
         self.errs = errs or {}
         self.fuel = fuel
         self.pre = pre
+        self.lockstep = lockstep or {}  # iterable expression text -> {target name: coq term/type}: body inlined once
+        self.inplace = inplace or {}    # dotted attr -> {(op, rhs type): setter fmt with {s} {v}}
+        self.binops = binops or {}      # (op, ltype, rtype) -> (fmt with {a} {b}, result type)
+        self.eattrs = eattrs or {}      # dotted attribute whose evaluation is effectful -> call spec
+        self.methods = methods or {}    # method name -> (fmt with {o} and {args}, arg kw names, result type or None=same)
+        self.types = types or {}
+        self.skip = skip or []          # ast.unparse texts of statements that are pinned elsewhere and skipped
 
 
 ERR_KINDS = ['ValueError', 'NotImplementedError', 'IndexError', 'AssertionError', 'TypeError',
@@ -153,6 +162,10 @@ class Tr:
             a, ta = self.ex(n.left)
             b, tb = self.ex(n.right)
             op = type(n.op).__name__
+            key = (op, ta if not isinstance(ta, tuple) else str(ta), tb if not isinstance(tb, tuple) else str(tb))
+            if key in sp.binops:
+                fmt, rt = sp.binops[key]
+                return (fmt.format(a=a, b=b), rt)
             if op == 'Pow':
                 if isinstance(n.right, ast.Constant) and isinstance(n.right.value, int) and n.right.value >= 0:
                     if ta == 'Z':
@@ -300,6 +313,21 @@ class Tr:
             if ta == 'Z' and tb == 'Z':
                 return ('(Z.%s %s %s)' % (d, a, b), 'Z')
             return ('(n%s %s %s)' % (d, self.coerce(a, ta, 'T'), self.coerce(b, tb, 'T')), 'T')
+        if isinstance(n.func, ast.Attribute) and n.func.attr in sp.methods and d not in sp.calls:
+            fmt, kwn, rt = sp.methods[n.func.attr]
+            o, to = self.ex(n.func.value)
+            kw = {k.arg: k.value for k in n.keywords}
+            vals = []
+            pos = list(n.args)
+            for i, nm in enumerate(kwn):
+                node = pos[i] if i < len(pos) else kw.pop(nm, None)
+                if node is None:
+                    raise TErr('method %s: missing %s' % (n.func.attr, nm))
+                v, tv = self.ex(node)
+                vals.append(self.coerce(v, tv, 'T') if tv in ('Z', 'T') and to == 'T' else v)
+            if kw or len(pos) > len(kwn):
+                raise TErr('method %s: unexpected arguments' % n.func.attr)
+            return (fmt.format(o=o, args=' '.join(vals)), rt or to)
         if d in sp.calls:
             c = sp.calls[d]
             args = []
@@ -357,13 +385,12 @@ class Tr:
             return cont()
         if isinstance(st, ast.Pass):
             return cont()
+        if ast.unparse(st) in sp.skip:
+            return cont()
         if isinstance(st, ast.Return):
             if st.value is None:
                 return self.ret_val('tt')
-            if isinstance(st.value, ast.Call) and self._is_effect(st.value):
-                return self.effect(st.value, lambda v, t: self.ret_val(self._ret_coerce(v, t)))
-            v, t = self.ex(st.value)
-            return self.ret_val(self._ret_coerce(v, t))
+            return self.with_effects(st.value, lambda e: self.ret_val(self._ret_coerce(*self.ex(e))))
         if isinstance(st, ast.Raise):
             if sp.mode == 'pure':
                 raise TErr('raise in a pure function')
@@ -378,18 +405,25 @@ class Tr:
             c = self.truthy(*self.ex(st.test))
             return '(if %s then %s else Err AssertionError)' % (c, cont())
         if isinstance(st, ast.AugAssign):
+            d = dotted(st.target)
+            if d in sp.inplace:
+                def inpl(e, st=st, d=d):
+                    v, t = self.ex(e)
+                    key = (type(st.op).__name__, t if not isinstance(t, tuple) else str(t))
+                    if key not in sp.inplace[d]:
+                        raise TErr('in-place %s on %s with %s' % (key[0], d, key[1]))
+                    s_ = sp.state[0]
+                    return '(let %s := %s in\n %s)' % (s_, sp.inplace[d][key].format(s=s_, v=v), cont())
+                return self.with_effects(st.value, inpl)
             st = ast.Assign(targets=[st.target], value=ast.BinOp(left=st.target, op=st.op, right=st.value))
         if isinstance(st, ast.Assign):
             if len(st.targets) != 1:
                 raise TErr('multiple assignment targets')
             tg = st.targets[0]
-            if isinstance(st.value, ast.Call) and self._is_effect(st.value):
-                return self.effect(st.value, lambda v, t: self.assign(tg, v, t, cont))
-            v, t = self.ex(st.value)
-            return self.assign(tg, v, t, cont)
+            return self.with_effects(st.value, lambda e: self.assign(tg, *self.ex(e), cont))
         if isinstance(st, ast.Expr) and isinstance(st.value, ast.Call):
             if self._is_effect(st.value):
-                return self.effect(st.value, lambda v, t: cont())
+                return self.with_effects(st.value, lambda e: cont())
             # pure call whose value is dropped: only allowed if declared droppable
             raise TErr('statement-level call to pure/undeclared %s' % dotted(st.value.func))
         if isinstance(st, ast.If):
@@ -400,12 +434,15 @@ class Tr:
                 return self.block(list(st.body) + rest, k)
             if sv is False:
                 return self.block(list(st.orelse) + rest, k)
-            c = self.truthy(*self.ex(test))
-            a = self.block(list(st.body) + rest, k)
-            self.vars = dict(saved)
-            b = self.block(list(st.orelse) + rest, k)
-            self.vars = dict(saved)
-            return '(if %s\n then %s\n else %s)' % (c, a, b)
+            def branches(e):
+                c = self.truthy(*self.ex(e))
+                saved2 = dict(self.vars)
+                a = self.block(list(st.body) + rest, k)
+                self.vars = dict(saved2)
+                b = self.block(list(st.orelse) + rest, k)
+                self.vars = dict(saved2)
+                return '(if %s\n then %s\n else %s)' % (c, a, b)
+            return self.with_effects(test, branches)
         if isinstance(st, ast.For):
             return self.for_loop(st, cont)
         if isinstance(st, ast.While):
@@ -476,17 +513,80 @@ class Tr:
         raise TErr('assignment target ' + ast.unparse(tg))
 
     def _is_effect(self, call):
+        if not isinstance(call, ast.Call):
+            return False
         d = dotted(call.func)
         return d in self.spec.calls and self.spec.calls[d].get('kind', 'pure') != 'pure'
+
+    def with_effects(self, expr, k):
+        """hoist effectful sub-expressions (declared effect calls, effectful attributes) of `expr`
+        in evaluation order into monadic binds, then continue with the rewritten pure expression"""
+        found = []
+        tr = self
+
+        class H(ast.NodeTransformer):
+            depth = 0
+
+            def visit_BoolOp(s2, node):
+                node.values[0] = s2.visit(node.values[0])
+                s2.depth += 1
+                node.values[1:] = [s2.visit(v) for v in node.values[1:]]
+                s2.depth -= 1
+                return node
+
+            def visit_IfExp(s2, node):
+                node.test = s2.visit(node.test)
+                s2.depth += 1
+                node.body = s2.visit(node.body)
+                node.orelse = s2.visit(node.orelse)
+                s2.depth -= 1
+                return node
+
+            def note(s2, node, cspec):
+                if s2.depth > 0 and not cspec.get('idem'):
+                    raise TErr('effectful sub-expression under short-circuit: ' + ast.unparse(node))
+                nm = tr.fresh('e')
+                found.append((nm, node))
+                return ast.Name(id=nm, ctx=ast.Load())
+
+            def visit_Call(s2, node):
+                node = s2.generic_visit(node)
+                if tr._is_effect(node):
+                    return s2.note(node, tr.spec.calls[dotted(node.func)])
+                return node
+
+            def visit_Attribute(s2, node):
+                d = dotted(node)
+                if d in tr.spec.eattrs:
+                    return s2.note(node, tr.spec.eattrs[d])
+                return s2.generic_visit(node)
+
+        new = H().visit(copy.deepcopy(expr))
+
+        def chain(i):
+            if i == len(found):
+                return k(new)
+            nm, node = found[i]
+
+            def bound(v, t):
+                tr.vars[nm] = (v, t)
+                return chain(i + 1)
+            return tr.effect(node, bound)
+        return chain(0)
 
     def effect(self, call, k):
         """effectful call: kind 'res' : args -> result ret ;  kind 'prim': state -> args -> result (state*ret)"""
         sp = self.spec
-        d = dotted(call.func)
-        c = sp.calls[d]
+        if isinstance(call, ast.Attribute):
+            c = sp.eattrs[dotted(call)]
+            d = dotted(call)
+            given, kw = [], {}
+        else:
+            d = dotted(call.func)
+            c = sp.calls[d]
+            given = list(call.args)
+            kw = {x.arg: x.value for x in call.keywords}
         args = []
-        given = list(call.args)
-        kw = {x.arg: x.value for x in call.keywords}
         names = c.get('kw', [])
         for i, want in enumerate(c['args']):
             if i < len(given):
@@ -498,7 +598,19 @@ class Tr:
             else:
                 raise TErr('call %s: missing argument %d' % (d, i))
             a, ta = self.ex(node)
-            args.append(a if want == 'any' else self.coerce(a, ta, want))
+            if want == 'any':
+                args.append(a)
+            elif want == 'drop':
+                pass
+            elif isinstance(want, tuple) and want[0] == 'opt' and ta == 'none':
+                args.append('None')
+            elif isinstance(want, tuple) and want[0] == 'opt' and ta == want[1]:
+                args.append('(Some %s)' % a)
+            else:
+                args.append(self.coerce(a, ta, want))
+        for kname in list(kw):
+            if kname in c.get('ignore_kw', []):
+                kw.pop(kname)
         if kw:
             raise TErr('call %s: unexpected keyword(s) %s' % (d, sorted(kw)))
         if sp.mode == 'pure':
@@ -532,9 +644,18 @@ class Tr:
         sp = self.spec
         if st.orelse:
             raise TErr('for-else')
-        if not isinstance(st.target, ast.Name):
-            raise TErr('for target')
         it = st.iter
+        if not isinstance(st.target, ast.Name) and ast.unparse(it) not in sp.lockstep:
+            raise TErr('for target')
+        if ast.unparse(it) in sp.lockstep:
+            binds = sp.lockstep[ast.unparse(it)]
+            tgs = [st.target] if isinstance(st.target, ast.Name) else list(st.target.elts)
+            for tg in tgs:
+                if not isinstance(tg, ast.Name) or tg.id not in binds:
+                    raise TErr('lock-step loop target ' + ast.unparse(st.target))
+                self.vars[tg.id] = binds[tg.id]
+            # all optimised parameters move in lock-step: the body is executed for the one symbolic parameter
+            return self.block(list(st.body), cont)
         if isinstance(it, ast.Call) and dotted(it.func) == 'range' and len(it.args) in (1, 2):
             if len(it.args) == 1:
                 lo, hi = zlit(0), self.ex(it.args[0])[0]
